@@ -1220,7 +1220,7 @@ func (rn *runner) runScenario1(s *scenario) {
 	for i := 0; i < nBase; i++ {
 		step(n0, "P", s.randomOpts(r))
 	}
-	if s.Kind == "f6" {
+	if s.Kind == "f6" || s.Kind == "double" {
 		s.f6Base(n0, r, step)
 	}
 	fork := s.blocks[n0.z.Hc.CurrentHeader().Hash()]
@@ -1240,7 +1240,7 @@ func (rn *runner) runScenario1(s *scenario) {
 	switch s.Kind {
 	case "deep":
 		plans[0].depth, plans[1].depth = 5, 5
-	case "f6":
+	case "f6", "double":
 		plans[0].depth, plans[1].depth = 2, 2
 	}
 	if s.Kind == "random" && r.Chance(40) && plans[0].depth >= 2 {
@@ -1267,6 +1267,8 @@ func (rn *runner) runScenario1(s *scenario) {
 			switch {
 			case s.Kind == "f6":
 				o = s.f6Opts(bp.name, i, r)
+			case s.Kind == "double":
+				o = &blockOpts{noContent: true, miner: 0}
 			default:
 				o = s.randomOpts(r)
 			}
@@ -1599,6 +1601,11 @@ func (s *scenario) forkInbound(r *hlib.Rng) *blockOpts {
 	if s.Kind == "f6" {
 		return &blockOpts{forceInb: true, inbound: types.Transactions{lockupCoinbase(r, id.qiMiner, 1, &id.delegates[1], den(8))}}
 	}
+	if s.Kind == "double" {
+		// two top-ups of the same tranche in one block (no delegate anywhere): the restore order of
+		// the two undo records of that block decides which value survives a rollback
+		return &blockOpts{forceInb: true, inbound: types.Transactions{lockupCoinbase(r, id.qiMiner, 1, nil, den(8)), lockupCoinbase(r, id.qiMiner, 1, nil, den(7))}}
+	}
 	return nil
 }
 
@@ -1795,7 +1802,7 @@ func main() {
 	// corpus first: one scenario per known finding / boundary shape, on every backend
 	sid := 0
 	for _, bk := range backends {
-		for _, kind := range []string{"f6", "deep"} {
+		for _, kind := range []string{"f6", "deep", "double"} {
 			rn.runScenario(mk(sid, kind, bk, 1000+uint64(sid)))
 			sid++
 		}
